@@ -1,10 +1,12 @@
 package main
 
 import (
+	"flag"
 	"fmt"
 	"go/ast"
 	"go/token"
 	"go/types"
+	"os"
 	"sort"
 	"strings"
 )
@@ -186,6 +188,22 @@ func VerifyUnit(prog *Program, cs *ContractSet, uc *UnitContract) *UnitResult {
 			exits = append(exits, j.St)
 		}
 	}
+	if vacuityMode && uc.Region != "" && len(uc.Ensures) > 0 && len(uc.ExitEnsures) == 0 {
+		nb, nr := 0, 0
+		for _, j := range append(append([]Jump{}, o.Breaks...), o.Conts...) {
+			if j.St != nil && !j.St.pc.IsFalse() {
+				nb++
+			}
+		}
+		for _, r := range o.Rets {
+			if r.St != nil && !r.St.pc.IsFalse() {
+				nr++
+			}
+		}
+		if nb > 0 || (nr > 0 && len(uc.RetEnsures) == 0) {
+			x.auditNotes = append(x.auditNotes, fmt.Sprintf("%s: %d break/continue and %d return paths leave the region without passing its ensures (no exit-ensures/return-ensures)", uc.ID(), nb, nr))
+		}
+	}
 	// bind results
 	nres := 0
 	if fu.Sig != nil {
@@ -259,6 +277,7 @@ func VerifyUnit(prog *Program, cs *ContractSet, uc *UnitContract) *UnitResult {
 				continue
 			}
 			x.assert(final, x.specBool(en, final, spOut), "post", fmt.Sprintf("%s/post:%s", uc.ID(), en.Name), en.Tags, token.NoPos, en.Text)
+			x.coverAnte(en, final, spOut, "end")
 		}
 		// frame: everything written must be covered by a modifies clause
 		if uc.HasMod {
@@ -276,6 +295,7 @@ func VerifyUnit(prog *Program, cs *ContractSet, uc *UnitContract) *UnitResult {
 					continue
 				}
 				x.assert(ex, x.specBool(en, ex, spOut), "post-exit", fmt.Sprintf("%s/post-exit:%s", uc.ID(), en.Name), en.Tags, token.NoPos, en.Text)
+				x.coverAnte(en, ex, spOut, "exit")
 			}
 		}
 	}
@@ -298,6 +318,7 @@ func VerifyUnit(prog *Program, cs *ContractSet, uc *UnitContract) *UnitResult {
 					continue
 				}
 				x.assert(r.St, x.specBool(en, r.St, spOut), "post-return", fmt.Sprintf("%s/post-return:%s@%d", uc.ID(), en.Name, ri+1), en.Tags, token.NoPos, en.Text)
+				x.coverAnte(en, r.St, spOut, fmt.Sprintf("return%d", ri+1))
 			}
 		}
 		x.retBind = nil
@@ -620,4 +641,131 @@ func (x *Exec) extendBack(list []ast.Stmt, i, j int) int {
 		x.abstract(fmt.Sprintf("region extended backwards over %d preceding definition(s) of locals it uses", i-k))
 	}
 	return k
+}
+
+// ---------- vacuity audit ----------
+
+// vacuityMode: for every postcondition of the form A ==> B an extra cover obligation "A is reachable where the clause
+// is checked" is generated (hvc vacuity). A clause whose antecedent is unreachable at every point it is checked at is
+// proved vacuously: it would keep verifying after the behaviour it should pin down has changed.
+var vacuityMode bool
+
+func (x *Exec) coverAnte(c *Clause, st *State, sp *SpecCtx, point string) {
+	x.coverAnteWith(x.uc.ID(), c, st, point, func(tmp *Clause) *Term { return x.specBool(tmp, st, sp) })
+}
+
+func (x *Exec) coverAnteWith(owner string, c *Clause, st *State, point string, evalC func(*Clause) *Term) {
+	if !vacuityMode || st == nil || st.pc.IsFalse() {
+		return
+	}
+	call, ok := c.Expr.(*ast.CallExpr)
+	if !ok {
+		return
+	}
+	id, ok := call.Fun.(*ast.Ident)
+	if !ok || id.Name != "implies" || len(call.Args) != 2 {
+		return
+	}
+	tmp := &Clause{Kind: c.Kind, Name: c.Name, Text: c.Text, Expr: call.Args[0], File: c.File, Line: c.Line, Tags: c.Tags}
+	a := evalC(tmp)
+	x.anteCovers = append(x.anteCovers, &Obligation{Name: fmt.Sprintf("%s/vacuity:%s@%s", owner, c.Name, point), Unit: x.uc.ID(), Kind: "cover",
+		PC: And(st.pc, a), Goal: False, NAss: len(x.assumptions), Text: "antecedent of " + c.Name + " is reachable: " + c.Text, Expect: "sat", exec: x, Tags: c.Tags})
+}
+
+type vacuityReport struct {
+	Audited   int      `json:"implication_clauses_audited"`
+	Vacuous   []string `json:"vacuous"`
+	Undecided []string `json:"antecedent_reachability_undecided"`
+	UncheckedExits []string `json:"regions_with_exits_not_under_contract,omitempty"`
+}
+
+func vacuityAudit(prog *Program, cs *ContractSet, filter []string, timeout int) vacuityReport {
+	saveMode, saveProp := vacuityMode, activeProp
+	vacuityMode, activeProp = true, ""
+	defer func() { vacuityMode, activeProp = saveMode, saveProp }()
+	var obs []*Obligation
+	var notes []string
+	for _, uc := range cs.Units {
+		if uc.Lemma || uc.Trusted {
+			continue
+		}
+		if len(filter) > 0 {
+			hit := false
+			for _, a := range filter {
+				if uc.Tags[a] || strings.Contains(uc.ID(), a) {
+					hit = true
+				}
+			}
+			if !hit {
+				continue
+			}
+		}
+		if prog.Funcs[uc.PkgDir] == nil {
+			continue
+		}
+		res := VerifyUnit(prog, cs, uc)
+		if res.Exec != nil {
+			obs = append(obs, res.Exec.anteCovers...)
+			notes = append(notes, res.Exec.auditNotes...)
+		}
+	}
+	rs := discharge(obs, timeout, false)
+	type agg struct{ sat, unsat, other int }
+	groups := map[string]*agg{}
+	var order []string
+	for _, r := range rs {
+		k := r.Ob.Name[:strings.LastIndex(r.Ob.Name, "@")]
+		g := groups[k]
+		if g == nil {
+			g = &agg{}
+			groups[k] = g
+			order = append(order, k)
+		}
+		switch r.Res.Status {
+		case "sat":
+			g.sat++
+		case "unsat":
+			g.unsat++
+		default:
+			g.other++
+		}
+	}
+	rep := vacuityReport{Audited: len(order), Vacuous: []string{}, Undecided: []string{}, UncheckedExits: notes}
+	for _, k := range order {
+		g := groups[k]
+		switch {
+		case g.sat > 0:
+		case g.other > 0:
+			rep.Undecided = append(rep.Undecided, k)
+		default:
+			rep.Vacuous = append(rep.Vacuous, k)
+		}
+	}
+	return rep
+}
+
+func cmdVacuity(args []string) int {
+	fs := flag.NewFlagSet("vacuity", flag.ExitOnError)
+	timeout := fs.Int("t", 10, "timeout per query (s)")
+	fs.Parse(args)
+	prog, cs, err := loadAll(nil)
+	if err != nil {
+		fmt.Fprintln(os.Stderr, "error:", err)
+		return 2
+	}
+	rep := vacuityAudit(prog, cs, fs.Args(), *timeout)
+	for _, k := range rep.Undecided {
+		fmt.Printf("UNDECIDED %s (antecedent reachability not decided in %ds)\n", k, *timeout)
+	}
+	for _, k := range rep.UncheckedExits {
+		fmt.Println("NOTE     ", k)
+	}
+	for _, k := range rep.Vacuous {
+		fmt.Printf("VACUOUS   %s (antecedent unreachable at every point the clause is checked at)\n", k)
+	}
+	fmt.Printf("%d implication clauses audited, %d vacuous, %d undecided\n", rep.Audited, len(rep.Vacuous), len(rep.Undecided))
+	if len(rep.Vacuous) > 0 {
+		return 1
+	}
+	return 0
 }
